@@ -78,7 +78,9 @@ func (f *Case) Call(s *slip.Scope, args slip.List, depth int) (result slip.Objec
 		}
 		if same {
 			for i := 1; i < len(clause); i++ {
-				result = slip.EvalArg(s, clause, i, d2)
+				if result = slip.EvalArg(s, clause, i, d2); slip.IsExit(result) {
+					break
+				}
 			}
 			break
 		}
